@@ -7,17 +7,17 @@ From Typ Require Import Lib.Base Lib.Chan Chans.Helpers.
 
 Section Proofs.
 Context {V : Type} (zero : V).
-Implicit Types (w : world V) (c : chan V) (p : pc V) (l : list (event V)) (v x : V).
+Implicit Types (w : world V) (p : pc V) (v x : V).
 
 (* ---------- projections of the log ---------- *)
 
-Lemma sent_vals_app l1 l2 : sent_vals (l1 ++ l2) = sent_vals l1 ++ sent_vals l2.
+Lemma sent_vals_app (l1 l2 : list (event V)) : sent_vals (l1 ++ l2) = sent_vals l1 ++ sent_vals l2.
 Proof. apply flat_map_app. Qed.
-Lemma rcvd_vals_app l1 l2 : rcvd_vals (l1 ++ l2) = rcvd_vals l1 ++ rcvd_vals l2.
+Lemma rcvd_vals_app (l1 l2 : list (event V)) : rcvd_vals (l1 ++ l2) = rcvd_vals l1 ++ rcvd_vals l2.
 Proof. apply flat_map_app. Qed.
-Lemma sent_by_app a l1 l2 : sent_by a (l1 ++ l2) = sent_by a l1 ++ sent_by a l2.
+Lemma sent_by_app a (l1 l2 : list (event V)) : sent_by a (l1 ++ l2) = sent_by a l1 ++ sent_by a l2.
 Proof. apply flat_map_app. Qed.
-Lemma rcvd_by_app a l1 l2 : rcvd_by a (l1 ++ l2) = rcvd_by a l1 ++ rcvd_by a l2.
+Lemma rcvd_by_app a (l1 l2 : list (event V)) : rcvd_by a (l1 ++ l2) = rcvd_by a l1 ++ rcvd_by a l2.
 Proof. apply flat_map_app. Qed.
 
 (* ---------- single operations: effect on the helper's part of the log ---------- *)
@@ -140,7 +140,7 @@ Proof.
     + destruct Hm as (? & ? & ?). repeat split; auto; congruence.
     + destruct Hm as (? & ? & ?). repeat split; auto; congruence.
   - destruct (hstep zero c w p) as [st'|] eqn:E; [|split; assumption].
-    destruct p as [v'|v'| | | | |r|k]; try (destruct Hm as [-> _]; destruct Hp0; discriminate).
+    destruct p as [v'|v'| | | | |r|k]; try (destruct Hm as [Hm _]; subst p0; destruct Hp0; discriminate).
     + destruct Hm as [Hp Hs]. assert (v' = v) as -> by (destruct Hp0; congruence).
       cbn [hstep] in E. eapply send_commit_rel; eauto.
     + destruct Hm as [Hp Hs]. assert (v' = v) as -> by (destruct Hp0; congruence).
@@ -163,6 +163,511 @@ Lemma send_rel_run v s0 r0 p0 sched : p0 = PSendBlock v \/ p0 = PSendSelect v ->
 Proof.
   intros Hp0. induction sched as [|a sched IH]; intros st H; [exact H|].
   cbn [run fold_left]. apply IH. apply send_rel_step; assumption.
+Qed.
+
+
+Lemma send_entry v timeout : SendTimeout v timeout = PSendBlock v \/ SendTimeout v timeout = PSendSelect v.
+Proof. unfold SendTimeout. destruct (timeout <=? 0)%Z; auto. Qed.
+
+(* What a send helper has returned after any schedule, against what it did to the channel. *)
+Definition send_outcome (v : V) (p0 : pc V) (w : world V) (st' : world V * pc V) : Prop :=
+  let w' := fst st' in
+  rcvd_by Helper (log w') = rcvd_by Helper (log w) /\
+  ((snd st' = p0 /\ sent_by Helper (log w') = sent_by Helper (log w)) \/
+   (snd st' = PRet (RBool true) /\ sent_by Helper (log w') = sent_by Helper (log w) ++ [v]) \/
+   (snd st' = PRet (RBool false) /\ sent_by Helper (log w') = sent_by Helper (log w) /\
+      p0 = PSendSelect v /\ done w' = true) \/
+   (snd st' = PPanic SendOnClosed /\ sent_by Helper (log w') = sent_by Helper (log w) /\
+      closed (ch w') = true)).
+
+Lemma send_iff_handed_pc sched w v p0 : p0 = PSendBlock v \/ p0 = PSendSelect v ->
+  send_outcome v p0 w (run zero sched (w, p0)).
+Proof.
+  intros Hp0.
+  assert (H0 : send_rel v (sent_by Helper (log w)) (rcvd_by Helper (log w)) p0 (w, p0)).
+  { split; cbn [fst snd]; [reflexivity|]. destruct Hp0 as [-> | ->]; auto. }
+  apply (send_rel_run _ _ _ _ sched Hp0) in H0.
+  destruct (run zero sched (w, p0)) as [w' p']. destruct H0 as [Hr Hm]. cbn [fst snd] in *.
+  split; [exact Hr|]. cbn [fst snd].
+  destruct p' as [| | | | | |[[|]| | |]|]; try (left; destruct Hm; split; congruence).
+  - right; left; auto.
+  - right; right; left. tauto.
+  - right; right; right. destruct Hm as (-> & ? & ?). auto.
+Qed.
+
+Theorem send_iff_handed sched w v p0 :
+  (exists timeout, p0 = SendTimeout v timeout) \/ p0 = SendContext v ->
+  send_outcome v p0 w (run zero sched (w, p0)).
+Proof.
+  intros H. apply send_iff_handed_pc. destruct H as [[t ->] | ->]; [apply send_entry | right; reflexivity].
+Qed.
+
+(* timeout <= 0: there is no timer branch: false is never returned, whatever the timer does *)
+Theorem send_no_limit sched w v timeout : (timeout <= 0)%Z ->
+  snd (run zero sched (w, SendTimeout v timeout)) <> PRet (RBool false).
+Proof.
+  intros Ht E. assert (Hb : SendTimeout v timeout = PSendBlock v).
+  { unfold SendTimeout. destruct (Z.leb_spec timeout 0); [reflexivity|lia]. }
+  destruct (send_iff_handed_pc sched w v (SendTimeout v timeout)) as [_ H]; [left; exact Hb|].
+  rewrite Hb in *.
+  destruct H as [[H _]|[[H _]|[(_ & _ & H & _)|[H _]]]]; congruence.
+Qed.
+
+
+(* ---------- well-formedness and FIFO conservation are invariants ---------- *)
+
+Ltac wf_crush :=
+  unfold wf in *; cbn [buf cap closed sendq recvq ch upd set_chan length] in *;
+  rewrite ?app_length in *; cbn [length] in *;
+  repeat match goal with
+  | H : _ /\ _ |- _ => destruct H
+  end;
+  repeat split; intros;
+  repeat match goal with
+  | H : ?x :: ?l <> [] -> _ |- _ => specialize (H ltac:(discriminate))
+  | H : true = true -> _ |- _ => specialize (H eq_refl)
+  | H : ?P -> _, H' : ?P |- _ => specialize (H H')
+  | H : 0 < _ -> _ |- _ => specialize (H ltac:(lia))
+  | H : _ /\ _ |- _ => destruct H
+  | H : _ ++ [_] = [] |- _ => apply app_eq_nil in H; destruct H; discriminate
+  end;
+  try discriminate; try congruence; try lia; auto.
+
+Lemma try_send_wf a v w w' : try_send a v w = Done w' -> wf (ch w) -> wf (ch w').
+Proof.
+  destruct w as [[b cp cl sq rq] dn lg]. unfold try_send; cbn [ch closed recvq buf cap sendq].
+  destruct cl; [discriminate|]. destruct (Nat.ltb_spec 0 rq) as [Hq|Hq].
+  - intros [= <-] H. wf_crush.
+  - destruct (Nat.ltb_spec (length b) cp) as [Hl|Hl]; [|discriminate].
+    intros [= <-] H. wf_crush.
+Qed.
+
+Lemma try_send_blocks a v w : try_send a v w = WouldBlock ->
+  closed (ch w) = false /\ recvq (ch w) = 0 /\ cap (ch w) <= length (buf (ch w)).
+Proof.
+  unfold try_send. destruct (closed (ch w)); [discriminate|].
+  destruct (Nat.ltb_spec 0 (recvq (ch w))); [discriminate|].
+  destruct (Nat.ltb_spec (length (buf (ch w))) (cap (ch w))); [discriminate|]. intros _. repeat split; lia.
+Qed.
+
+Lemma try_recv_wf a w w' x ok : try_recv zero a w = Some (w', x, ok) -> wf (ch w) -> wf (ch w').
+Proof.
+  destruct w as [[b cp cl sq rq] dn lg]. unfold try_recv; cbn [ch closed recvq buf cap sendq].
+  destruct b as [|y b], sq as [|s q].
+  - destruct cl; [|discriminate]. intros [= <- <- <-]. auto.
+  - intros [= <- <- <-] H. wf_crush.
+  - intros [= <- <- <-] H. wf_crush.
+  - intros [= <- <- <-] H. wf_crush.
+Qed.
+
+Lemma try_recv_blocks a w : try_recv zero a w = None ->
+  closed (ch w) = false /\ buf (ch w) = [] /\ sendq (ch w) = [].
+Proof.
+  unfold try_recv. destruct (buf (ch w)), (sendq (ch w)); try discriminate.
+  destruct (closed (ch w)); [discriminate|]. auto.
+Qed.
+
+Lemma remove_nth_nil {A} i : @remove_nth A i [] = [].
+Proof. unfold remove_nth. rewrite firstn_nil, skipn_nil. reflexivity. Qed.
+
+Lemma env_step_wf e w : wf (ch w) -> wf (ch (env_step zero e w)).
+Proof.
+  intros H. destruct e as [v| | |i| |]; cbn [env_step].
+  - destruct (try_send Env v w) as [w'|k|] eqn:E; auto.
+    + eapply try_send_wf; eauto.
+    + apply try_send_blocks in E as (E1 & E2 & E3).
+      destruct w as [[b cp cl sq rq] dn lg]. cbn [ch closed recvq buf cap sendq] in *. subst. wf_crush.
+  - destruct (try_recv zero Env w) as [[[w' x] ok]|] eqn:E.
+    + eapply try_recv_wf; eauto.
+    + apply try_recv_blocks in E as (E1 & E2 & E3).
+      destruct w as [[b cp cl sq rq] dn lg]. cbn [ch closed recvq buf cap sendq] in *. subst. wf_crush.
+  - destruct (closed (ch w)) eqn:Ec; auto.
+    destruct w as [[b cp cl sq rq] dn lg]. cbn [ch closed recvq buf cap sendq] in *. subst. wf_crush.
+  - destruct w as [[b cp cl sq rq] dn lg]. cbn [ch closed recvq buf cap sendq] in *.
+    unfold wf in *; cbn [buf cap closed sendq recvq ch set_chan] in *.
+    destruct H as (H1 & H2 & H3 & H4). repeat split; auto.
+    + intros Hn. apply H2. intros ->. apply Hn. apply remove_nth_nil.
+    + apply H3; assumption.
+    + destruct (H3 H) as [_ ->]. apply remove_nth_nil.
+    + destruct (H4 H) as [-> _]. apply remove_nth_nil.
+    + apply H4; assumption.
+  - destruct w as [[b cp cl sq rq] dn lg]. cbn [ch closed recvq buf cap sendq] in *.
+    unfold wf in *; cbn [buf cap closed sendq recvq ch set_chan] in *.
+    destruct H as (H1 & H2 & H3 & H4). repeat split; auto.
+    + apply H3; lia.
+    + apply H3; lia.
+    + apply H4; assumption.
+    + destruct (H4 H) as [_ ->]. reflexivity.
+  - exact H.
+Qed.
+
+(* A helper step changes the world through at most one channel operation. *)
+Lemma hstep_world c w p w' p' : hstep zero c w p = Some (w', p') ->
+  w' = w \/ (exists v, try_send Helper v w = Done w') \/ (exists x ok, try_recv zero Helper w = Some (w', x, ok)).
+Proof.
+  assert (Hsc : forall v st, send_commit w (try_send Helper v w) = Some st ->
+                fst st = w \/ try_send Helper v w = Done (fst st)).
+  { intros v st. destruct (try_send Helper v w); cbn [send_commit]; intros [= <-]; cbn [fst]; auto. }
+  destruct p as [v|v| | |b m|i bf|r|k]; cbn [hstep].
+  - intros E. apply Hsc in E. cbn [fst] in E. destruct E; eauto.
+  - destruct (try_send Helper v w) as [w1|k|] eqn:E1; destruct (done w); try destruct c; cbn [send_commit];
+      intros [= <- <-] || discriminate; eauto.
+  - destruct (try_recv zero Helper w) as [[[w1 x] ok]|] eqn:E1; [|discriminate]. intros [= <- <-]. eauto.
+  - destruct (try_recv zero Helper w) as [[[w1 x] ok]|] eqn:E1; destruct (done w); try destruct c;
+      intros [= <- <-] || discriminate; eauto.
+  - destruct (Z.of_nat (length b) <? m)%Z; [|intros [= <- <-]; auto].
+    destruct (try_recv zero Helper w) as [[[w1 x] ok]|] eqn:E1; [|intros [= <- <-]; auto].
+    destruct ok; cbn [negb]; intros [= <- <-]; eauto.
+  - destruct (i <? length bf); [|intros [= <- <-]; auto].
+    destruct (try_recv zero Helper w) as [[[w1 x] ok]|] eqn:E1; [|intros [= <- <-]; auto].
+    destruct ok; cbn [negb]; [destruct (set_nth i x bf)|]; intros [= <- <-]; eauto.
+  - discriminate.
+  - discriminate.
+Qed.
+
+Lemma step_wf a (st : world V * pc V) : wf (ch (fst st)) -> wf (ch (fst (step zero st a))).
+Proof.
+  destruct st as [w p]. cbn [fst]. intros H. destruct a as [e|c]; cbn [step fst snd].
+  - apply env_step_wf; exact H.
+  - destruct (hstep zero c w p) as [[w' p']|] eqn:E; cbn [fst]; [|exact H].
+    apply hstep_world in E as [->|[[v E]|(x & ok & E)]]; auto.
+    + eapply try_send_wf; eauto.
+    + eapply try_recv_wf; eauto.
+Qed.
+
+Theorem run_wf sched : forall (st : world V * pc V), wf (ch (fst st)) -> wf (ch (fst (run zero sched st))).
+Proof.
+  induction sched as [|a sched IH]; intros st H; [exact H|].
+  cbn [run fold_left]. apply IH. apply step_wf. exact H.
+Qed.
+
+
+Ltac cons_start :=
+  unfold conserved in *; unfold upd, set_chan; cbn [log ch buf] in *;
+  rewrite ?sent_vals_app, ?rcvd_vals_app; cbn [sent_vals rcvd_vals flat_map app]; rewrite ?app_nil_r.
+
+Lemma try_send_cons b0 a v w w' : try_send a v w = Done w' -> wf (ch w) -> conserved b0 w -> conserved b0 w'.
+Proof.
+  destruct w as [[b cp cl sq rq] dn lg]. unfold try_send; cbn [ch closed recvq buf cap sendq].
+  destruct cl; [discriminate|]. destruct (Nat.ltb_spec 0 rq) as [Hq|Hq].
+  - intros [= <-] (_ & _ & H3 & _) H. cbn [recvq buf sendq] in H3. destruct (H3 Hq) as [-> _].
+    cons_start. rewrite app_nil_r in H. rewrite app_assoc, H. reflexivity.
+  - destruct (Nat.ltb_spec (length b) cp) as [Hl|Hl]; [|discriminate].
+    intros [= <-] _ H. cons_start. rewrite !app_assoc, H. reflexivity.
+Qed.
+
+Lemma try_recv_cons b0 a w w' x ok : try_recv zero a w = Some (w', x, ok) -> conserved b0 w -> conserved b0 w'.
+Proof.
+  destruct w as [[b cp cl sq rq] dn lg]. unfold try_recv; cbn [ch closed recvq buf cap sendq].
+  destruct b as [|y b], sq as [|s q].
+  - destruct cl; [|discriminate]. intros [= <- <- <-]. auto.
+  - intros [= <- <- <-] H. cons_start. rewrite app_nil_r in H. rewrite app_assoc, H. reflexivity.
+  - intros [= <- <- <-] H. cons_start. rewrite H, <- app_assoc. reflexivity.
+  - intros [= <- <- <-] H. cons_start. rewrite app_assoc, H, <- !app_assoc. reflexivity.
+Qed.
+
+Lemma env_step_cons b0 e w : wf (ch w) -> conserved b0 w -> conserved b0 (env_step zero e w).
+Proof.
+  intros Hw H. destruct e as [v| | |i| |]; cbn [env_step]; try exact H.
+  - destruct (try_send Env v w) as [w'|k|] eqn:E; auto. eapply try_send_cons; eauto.
+  - destruct (try_recv zero Env w) as [[[w' x] ok]|] eqn:E; auto. eapply try_recv_cons; eauto.
+  - destruct (closed (ch w)); auto.
+Qed.
+
+Lemma step_cons b0 a (st : world V * pc V) :
+  wf (ch (fst st)) -> conserved b0 (fst st) -> conserved b0 (fst (step zero st a)).
+Proof.
+  destruct st as [w p]. cbn [fst]. intros Hw H. destruct a as [e|c]; cbn [step fst snd].
+  - apply env_step_cons; assumption.
+  - destruct (hstep zero c w p) as [[w' p']|] eqn:E; cbn [fst]; [|exact H].
+    apply hstep_world in E as [->|[[v E]|(x & ok & E)]]; auto.
+    + eapply try_send_cons; eauto.
+    + eapply try_recv_cons; eauto.
+Qed.
+
+(* FIFO conservation under every schedule, whatever the helper is and does. *)
+Theorem run_conserved b0 sched : forall (st : world V * pc V),
+  wf (ch (fst st)) -> conserved b0 (fst st) -> conserved b0 (fst (run zero sched st)).
+Proof.
+  induction sched as [|a sched IH]; intros st Hw H; [exact H|].
+  cbn [run fold_left]. apply IH; [apply step_wf|apply step_cons]; assumption.
+Qed.
+
+(* the form used in Props: start with an empty log, buffer contents b0 *)
+Theorem conservation sched c dn p :
+  wf c ->
+  let w' := fst (run zero sched (World c dn [], p)) in
+  wf (ch w') /\ buf c ++ sent_vals (log w') = rcvd_vals (log w') ++ buf (ch w').
+Proof.
+  intros Hw. split.
+  - apply (run_wf sched (World c dn [], p)). exact Hw.
+  - apply (run_conserved (buf c) sched (World c dn [], p)); [exact Hw|].
+    unfold conserved. cbn. rewrite app_nil_r. reflexivity.
+Qed.
+
+
+(* ---------- RecvTimeout / RecvContext ---------- *)
+
+Lemma env_step_closed_empty e w : closed (ch w) = true -> buf (ch w) = [] ->
+  closed (ch (env_step zero e w)) = true /\ buf (ch (env_step zero e w)) = [].
+Proof.
+  intros Hc Hb. split; [apply env_step_closed; exact Hc|].
+  destruct w as [[b cp cl sq rq] dn lg]. cbn [ch closed buf] in *. subst.
+  destruct e as [v| | |i| |]; cbn; try reflexivity.
+  destruct sq; reflexivity.
+Qed.
+
+Definition recv_rel (s0 r0 : list V) (p0 : pc V) (st : world V * pc V) : Prop :=
+  sent_by Helper (log (fst st)) = s0 /\
+  match snd st with
+  | PRet (RRecv x true) => rcvd_by Helper (log (fst st)) = r0 ++ [x]
+  | PRet (RRecv x false) => x = zero /\ rcvd_by Helper (log (fst st)) = r0 /\
+      (p0 = PRecvSelect /\ done (fst st) = true \/
+       closed (ch (fst st)) = true /\ buf (ch (fst st)) = [])
+  | p => p = p0 /\ rcvd_by Helper (log (fst st)) = r0
+  end.
+
+Lemma recv_commit_rel s0 r0 p0 w w' x ok :
+  sent_by Helper (log w) = s0 -> rcvd_by Helper (log w) = r0 ->
+  try_recv zero Helper w = Some (w', x, ok) -> recv_rel s0 r0 p0 (w', PRet (RRecv x ok)).
+Proof.
+  intros Hs Hr E. apply try_recv_H in E as (Es & _ & [[-> Er]|(-> & -> & -> & Hc & Hb & _)]).
+  - split; cbn [fst snd]; congruence.
+  - split; cbn [fst snd]; auto.
+Qed.
+
+Lemma recv_rel_step s0 r0 p0 st a : p0 = PRecvBlock \/ p0 = PRecvSelect ->
+  recv_rel s0 r0 p0 st -> recv_rel s0 r0 p0 (step zero st a).
+Proof.
+  intros Hp0 [Hs Hm]. destruct st as [w p]. cbn [fst snd] in *. destruct a as [e|c]; cbn [step fst snd].
+  - destruct (env_step_H e w) as (Es & Er & Ed). pose proof (env_step_closed_empty e w) as Ec.
+    split; cbn [fst snd]; [congruence|].
+    destruct p as [| | | | | |[|x [|]| |]|]; try (destruct Hm; split; congruence).
+    + congruence.
+    + destruct Hm as (? & ? & [[? ?]|[? ?]]); repeat split; auto; try congruence.
+  - destruct (hstep zero c w p) as [st'|] eqn:E; [|split; assumption].
+    destruct p as [v'|v'| | | | |r|k]; try (destruct Hm as [Hm _]; subst p0; destruct Hp0; discriminate).
+    + destruct Hm as [Hp Hr]. cbn [hstep] in E.
+      destruct (try_recv zero Helper w) as [[[w' x] ok]|] eqn:E'; [|discriminate].
+      injection E as <-. eapply recv_commit_rel; eauto.
+    + destruct Hm as [Hp Hr]. cbn [hstep] in E.
+      assert (Hfalse : recv_rel s0 r0 p0 (w, PRet (RRecv zero false)) \/ done w = false).
+      { destruct (done w) eqn:Ed; [left|right; reflexivity]. split; cbn [fst snd]; auto. }
+      destruct (try_recv zero Helper w) as [[[w' x] ok]|] eqn:E'; destruct (done w) eqn:Ed;
+        try destruct c; try discriminate;
+        try (injection E as <-; destruct Hfalse as [?|?]; [assumption|discriminate]);
+        try (injection E as <-; eapply recv_commit_rel; eauto).
+    + cbn [hstep] in E. discriminate.
+Qed.
+
+Lemma recv_rel_run s0 r0 p0 sched : p0 = PRecvBlock \/ p0 = PRecvSelect ->
+  forall st, recv_rel s0 r0 p0 st -> recv_rel s0 r0 p0 (run zero sched st).
+Proof.
+  intros Hp0. induction sched as [|a sched IH]; intros st H; [exact H|].
+  cbn [run fold_left]. apply IH. apply recv_rel_step; assumption.
+Qed.
+
+Lemma recv_entry timeout : @RecvTimeout V timeout = PRecvBlock \/ @RecvTimeout V timeout = PRecvSelect.
+Proof. unfold RecvTimeout. destruct (timeout <=? 0)%Z; auto. Qed.
+
+(* What a receive helper has returned after any schedule, against what it did to the channel. *)
+Definition recv_outcome (p0 : pc V) (w : world V) (st' : world V * pc V) : Prop :=
+  let w' := fst st' in
+  sent_by Helper (log w') = sent_by Helper (log w) /\
+  ((snd st' = p0 /\ rcvd_by Helper (log w') = rcvd_by Helper (log w)) \/
+   (exists x, snd st' = PRet (RRecv x true) /\ rcvd_by Helper (log w') = rcvd_by Helper (log w) ++ [x]) \/
+   (snd st' = PRet (RRecv zero false) /\ rcvd_by Helper (log w') = rcvd_by Helper (log w) /\
+      (p0 = PRecvSelect /\ done w' = true \/ closed (ch w') = true /\ buf (ch w') = []))).
+
+Lemma recv_iff_taken_pc sched w p0 : p0 = PRecvBlock \/ p0 = PRecvSelect ->
+  recv_outcome p0 w (run zero sched (w, p0)).
+Proof.
+  intros Hp0.
+  assert (H0 : recv_rel (sent_by Helper (log w)) (rcvd_by Helper (log w)) p0 (w, p0)).
+  { split; cbn [fst snd]; [reflexivity|]. destruct Hp0 as [-> | ->]; auto. }
+  apply (recv_rel_run _ _ _ sched Hp0) in H0.
+  destruct (run zero sched (w, p0)) as [w' p']. destruct H0 as [Hs Hm]. cbn [fst snd] in *.
+  split; [exact Hs|]. cbn [fst snd].
+  destruct p' as [| | | | | |[|x [|]| |]|]; try (left; destruct Hm; split; congruence).
+  - right; left; eauto.
+  - right; right. destruct Hm as (-> & ? & ?). auto.
+Qed.
+
+Theorem recv_iff_taken sched w p0 :
+  (exists timeout, p0 = RecvTimeout timeout) \/ p0 = RecvContext ->
+  recv_outcome p0 w (run zero sched (w, p0)).
+Proof.
+  intros H. apply recv_iff_taken_pc. destruct H as [[t ->] | ->]; [apply recv_entry | right; reflexivity].
+Qed.
+
+(* timeout <= 0: no timer branch: (zero,false) only from a closed and drained channel *)
+Theorem recv_no_limit sched w timeout x : (timeout <= 0)%Z ->
+  let st' := run zero sched (w, RecvTimeout timeout) in
+  snd st' = PRet (RRecv x false) -> closed (ch (fst st')) = true /\ buf (ch (fst st')) = [].
+Proof.
+  intros Ht st' E. assert (Hb : @RecvTimeout V timeout = PRecvBlock).
+  { unfold RecvTimeout. destruct (Z.leb_spec timeout 0); [reflexivity|lia]. }
+  destruct (recv_iff_taken_pc sched w (RecvTimeout timeout)) as [_ H]; [left; exact Hb|].
+  fold st' in H. rewrite Hb in *.
+  destruct H as [[H _]|[(y & H & _)|(_ & _ & [[H _]|H])]]; try congruence; try assumption.
+Qed.
+
+(* a closed and drained channel counts as false, immediately and without consuming anything,
+   whichever branch a select takes *)
+Theorem recv_closed_false c w p0 : p0 = PRecvBlock \/ p0 = PRecvSelect ->
+  closed (ch w) = true -> buf (ch w) = [] -> sendq (ch w) = [] ->
+  hstep zero c w p0 = Some (w, PRet (RRecv zero false)).
+Proof.
+  intros Hp0 Hc Hb Hq.
+  assert (E : try_recv zero Helper w = Some (w, zero, false)).
+  { unfold try_recv. rewrite Hb, Hq, Hc. reflexivity. }
+  destruct Hp0 as [-> | ->]; cbn [hstep]; rewrite E; [reflexivity|].
+  destruct (done w); [destruct c|]; reflexivity.
+Qed.
+
+
+(* ---------- RecvQueued / RecvQueuedFull ---------- *)
+
+(* never blocked: the step is enabled in every world *)
+Theorem queued_never_blocks c w :
+  (forall buffer m, hstep zero c w (PQueued buffer m) <> None) /\
+  (forall index bf, hstep zero c w (PQueuedFull index bf) <> None).
+Proof.
+  split; intros; cbn [hstep].
+  - destruct (Z.of_nat (length buffer) <? m)%Z; [|discriminate].
+    destruct (try_recv zero Helper w) as [[[w' x] ok]|]; [|discriminate]. destruct ok; discriminate.
+  - destruct (index <? length bf); [|discriminate].
+    destruct (try_recv zero Helper w) as [[[w' x] ok]|]; [|discriminate].
+    destruct ok; cbn [negb]; [destruct (set_nth index x bf)|]; discriminate.
+Qed.
+
+(* number of own steps after which the loop has certainly returned *)
+Definition fuel_left (p : pc V) : nat :=
+  match p with
+  | PQueued buffer m => S (Z.to_nat m - length buffer)
+  | PQueuedFull index bf => S (length bf - index)
+  | _ => 0
+  end.
+
+Lemma hstep_fuel c w p w' p' : hstep zero c w p = Some (w', p') -> fuel_left p' <= pred (fuel_left p).
+Proof.
+  destruct p as [v|v| | |b m|i bf|r|k]; cbn [hstep].
+  - destruct (try_send Helper v w); cbn [send_commit]; intros [= <- <-] || discriminate; cbn; lia.
+  - destruct (try_send Helper v w); destruct (done w); try destruct c; cbn [send_commit];
+      intros [= <- <-] || discriminate; cbn; lia.
+  - destruct (try_recv zero Helper w) as [[[w1 x] ok]|]; [|discriminate]. intros [= <- <-]. cbn; lia.
+  - destruct (try_recv zero Helper w) as [[[w1 x] ok]|]; destruct (done w); try destruct c;
+      intros [= <- <-] || discriminate; cbn; lia.
+  - destruct (Z.ltb_spec (Z.of_nat (length b)) m); [|intros [= <- <-]; cbn; lia].
+    destruct (try_recv zero Helper w) as [[[w1 x] ok]|]; [|intros [= <- <-]; cbn; lia].
+    destruct ok; cbn [negb]; intros [= <- <-]; cbn [fuel_left pred]; [|lia].
+    rewrite app_length. cbn [length]. lia.
+  - destruct (Nat.ltb_spec i (length bf)); [|intros [= <- <-]; cbn; lia].
+    destruct (try_recv zero Helper w) as [[[w1 x] ok]|]; [|intros [= <- <-]; cbn; lia].
+    destruct ok; cbn [negb]; [|intros [= <- <-]; cbn; lia].
+    destruct (set_nth i x bf) as [bf'|] eqn:Es; intros [= <- <-]; cbn [fuel_left pred]; [|lia].
+    apply set_nth_length in Es. lia.
+  - discriminate.
+  - discriminate.
+Qed.
+
+Lemma run_fuel sched : forall (st : world V * pc V),
+  fuel_left (snd (run zero sched st)) <= fuel_left (snd st) - count_help sched.
+Proof.
+  induction sched as [|a sched IH]; intros [w p]; [cbn; lia|].
+  cbn [run fold_left]. fold (run zero sched (step zero (w, p) a)).
+  etransitivity; [apply IH|]. destruct a as [e|c]; cbn [step fst snd count_help filter length].
+  - fold (count_help sched). lia.
+  - fold (count_help sched). destruct (hstep zero c w p) as [[w' p']|] eqn:E.
+    + apply hstep_fuel in E. cbn [snd]. lia.
+    + cbn [snd]. destruct p; try (cbn; lia); exfalso;
+        [eapply (proj1 (queued_never_blocks c w)) | eapply (proj2 (queued_never_blocks c w))]; exact E.
+Qed.
+
+Lemma rcvd_by_subseq a (l : list (event V)) : subseq (rcvd_by a l) (rcvd_vals l).
+Proof.
+  induction l as [|[a' v|a' v] l IH]; cbn; [constructor|exact IH|].
+  destruct (agent_eqb a a'); cbn; constructor; exact IH.
+Qed.
+
+(* RecvQueued under an arbitrary environment *)
+Definition queued_rel (s0 r0 : list V) (m : Z) (st : world V * pc V) : Prop :=
+  sent_by Helper (log (fst st)) = s0 /\
+  match snd st with
+  | PQueued buffer m' => m' = m /\ rcvd_by Helper (log (fst st)) = r0 ++ buffer /\
+                         (Z.of_nat (length buffer) <= Z.max 0 m)%Z
+  | PRet (RList l) => rcvd_by Helper (log (fst st)) = r0 ++ l /\ (Z.of_nat (length l) <= Z.max 0 m)%Z
+  | _ => False
+  end.
+
+Lemma queued_rel_step s0 r0 m st a : queued_rel s0 r0 m st -> queued_rel s0 r0 m (step zero st a).
+Proof.
+  intros [Hs Hm]. destruct st as [w p]. cbn [fst snd] in *. destruct a as [e|c]; cbn [step fst snd].
+  - destruct (env_step_H e w) as (Es & Er & _). split; cbn [fst snd]; [congruence|].
+    destruct p as [| | | |b m'| |[| |l|]|]; try contradiction; rewrite Er; exact Hm.
+  - destruct (hstep zero c w p) as [st'|] eqn:E; [|split; assumption].
+    destruct p as [| | | |b m'| |[| |l|]|]; try contradiction.
+    + destruct Hm as (-> & Hr & Hl). cbn [hstep] in E.
+      destruct (Z.ltb_spec (Z.of_nat (length b)) m) as [Hlt|Hge];
+        [|injection E as <-; split; cbn [fst snd]; auto].
+      destruct (try_recv zero Helper w) as [[[w' x] ok]|] eqn:E';
+        [|injection E as <-; split; cbn [fst snd]; auto].
+      apply try_recv_H in E' as (Es & _ & [[-> Er]|(-> & -> & -> & _)]); cbn [negb] in E; injection E as <-.
+      * split; cbn [fst snd]; [congruence|]. split; [reflexivity|]. split.
+        -- rewrite Er, Hr, app_assoc. reflexivity.
+        -- rewrite app_length. cbn [length]. lia.
+      * split; cbn [fst snd]; auto.
+    + cbn [hstep] in E. discriminate.
+Qed.
+
+Lemma queued_rel_run s0 r0 m sched : forall st, queued_rel s0 r0 m st -> queued_rel s0 r0 m (run zero sched st).
+Proof.
+  induction sched as [|a sched IH]; intros st H; [exact H|].
+  cbn [run fold_left]. apply IH. apply queued_rel_step; assumption.
+Qed.
+
+(* After any schedule: RecvQueued has sent nothing; the values [l] it holds are
+   exactly what it took from the channel, in order, at most maxValues of them;
+   it is still in its loop holding l, or has returned l; and after
+   max(maxValues,0)+1 of its own steps it has returned. *)
+Definition queued_outcome (m : Z) (w : world V) (sched : list (action V)) (st' : world V * pc V) : Prop :=
+  let w' := fst st' in
+  sent_by Helper (log w') = sent_by Helper (log w) /\
+  exists l, rcvd_by Helper (log w') = rcvd_by Helper (log w) ++ l /\
+    (Z.of_nat (length l) <= Z.max 0 m)%Z /\
+    (snd st' = PQueued l m \/ snd st' = PRet (RList l)) /\
+    (Z.to_nat m + 1 <= count_help sched -> snd st' = PRet (RList l)).
+
+Theorem recv_queued_any_schedule sched w m :
+  queued_outcome m w sched (run zero sched (w, RecvQueued m)).
+Proof.
+  assert (H0 : queued_rel (sent_by Helper (log w)) (rcvd_by Helper (log w)) m (w, RecvQueued m)).
+  { split; cbn [fst snd RecvQueued]; [reflexivity|]. rewrite app_nil_r. cbn [length]. repeat split; lia. }
+  apply (queued_rel_run _ _ _ sched) in H0.
+  pose proof (run_fuel sched (w, RecvQueued m)) as Hf. cbn [snd RecvQueued fuel_left length] in Hf.
+  destruct (run zero sched (w, RecvQueued m)) as [w' p']. destruct H0 as [Hs Hm]. cbn [fst snd] in *.
+  split; [exact Hs|]. cbn [fst snd].
+  destruct p' as [| | | |b m'| |[| |l|]|]; try contradiction.
+  - destruct Hm as (-> & Hr & Hl). exists b. repeat split; auto. intros Hc. cbn [fuel_left] in Hf. lia.
+  - destruct Hm as (Hr & Hl). exists l. repeat split; auto.
+Qed.
+
+(* no invented value, FIFO: what the helper took is an order-preserving part of
+   everything received from the channel, which is a prefix of the initial
+   contents followed by the completed sends *)
+Theorem recv_queued_fifo sched c dn m :
+  wf c ->
+  let st' := run zero sched (World c dn [], RecvQueued m) in
+  exists l, (snd st' = PQueued l m \/ snd st' = PRet (RList l)) /\
+    subseq l (rcvd_vals (log (fst st'))) /\
+    buf c ++ sent_vals (log (fst st')) = rcvd_vals (log (fst st')) ++ buf (ch (fst st')).
+Proof.
+  intros Hw st'.
+  destruct (recv_queued_any_schedule sched (World c dn []) m) as (_ & l & Hr & _ & Hp & _).
+  fold st' in Hr, Hp. cbn [log rcvd_by flat_map app] in Hr.
+  exists l. split; [exact Hp|]. split.
+  - rewrite <- Hr. apply rcvd_by_subseq.
+  - apply (conservation sched c dn (RecvQueued m) Hw).
 Qed.
 
 End Proofs.
